@@ -9,6 +9,7 @@ import (
 	"fmt"
 	"math/big"
 	"sort"
+	"strings"
 
 	"github.com/artela-network/artela-evm/vm"
 	"github.com/ethereum/go-ethereum/common"
@@ -374,6 +375,26 @@ func driveTracer(seed uint64, n int, maxLen int, em *Emitter) {
 	al := smallAlphabet()
 	for c := 0; c < n; c++ {
 		em.Reset(fmt.Sprintf("tracer-%d-%d", seed, c))
-		genTracerCase(r.Fork(), em, 1+r.Intn(maxLen), al)
+		cs, ln := r.Next(), 1+r.Intn(maxLen)
+		genTracerCase(NewRng(cs), em, ln, al)
+		// C16 specification side: the same history on fresh tracers must give identical answers,
+		// including the order of every returned list.
+		var first *[][3]string
+		verdict := "same"
+		for rep := 0; rep < 6 && verdict == "same"; rep++ {
+			ce, buf := captureEmitter()
+			genTracerCase(NewRng(cs), ce, ln, al)
+			if first == nil {
+				first = buf
+				continue
+			}
+			for i := range *buf {
+				if (*buf)[i] != (*first)[i] {
+					verdict = "differs:" + strings.ReplaceAll((*buf)[i][1], " ", "_") + ":" + (*first)[i][2] + "_VS_" + (*buf)[i][2]
+					break
+				}
+			}
+		}
+		em.Op("C16", "S det", strings.ReplaceAll(verdict, " ", "_"))
 	}
 }
